@@ -14,7 +14,8 @@ PROPS = ["C09", "C11"]
 _cattr = z3.Function("class_attribute", z3.StringSort(), Ref)
 _member = z3.Function("bound_method", Ref, z3.StringSort(), Ref)
 SPEC_FUNCS = {"cattr": lambda n: vref(_cattr(n.z), "tunable")}
-GLOBALS = {"g_dir": "Seq[Str]", "g_members": "Seq[(Str,Ref:Method)]"}
+GLOBALS = {"g_dir": "Seq[Str]", "g_members": "Seq[(Str,Ref:Method)]", "g_topic_types": "Map[Ref:TypeObj,Ref:TopicType]", "g_array_topic_types": "Map[Ref:TypeObj,Ref:TopicType]",
+           "g_args": "Seq[Ref:TypeObj]"}
 MACROS = {
     # the documented key of attribute n of an object set up under (prefix, cname)
     "base(prefix, cname)": "('/' + cname) if prefix is None else ('/' + unwrap(prefix) + '/' + cname)",
@@ -24,15 +25,16 @@ MACROS = {
     "is_fb(m)": "has_attr(m, '_magic_feedback') and truthy(m._magic_feedback)",
 }
 CLASSES = {
-    "PyObj": {"fields": {}}, "NTInst": {"fields": {}}, "TypeObj": {"fields": {"__name__": "Str"}},
+    "PyObj": {"fields": {}}, "NTInst": {"fields": {}}, "TypeObj": {"fields": {"__name__": "Str", "?WPIStruct": "Bool", "WPIStruct": "py", "?__origin__": "Bool", "__origin__": "Ref:TypeObj"}},
     "Topic": {"fields": {"key": "Str"}},
-    "TopicType": {"fields": {}},
+    "TopicType": {"fields": {"g_kind": "Int", "g_of": "Ref:TypeObj"}},      # g_kind: 0 a table entry (ntcore topic class), 1 StructTopic of g_of, 2 StructArrayTopic of g_of
     "TypedTopic": {"fields": {"key": "Str", "ttype": "Ref:TopicType"}},
     "NTEntry": {"fields": {"key": "Str", "ttype": "Ref:TopicType", "g_value": "Ref:PyObj", "g_exists": "Bool", "g_sets": "Int", "g_setdefaults": "Int"}},
     "tunable": {"fields": {"_ntdefault": "Ref:PyObj", "_ntsubtable": "Opt[Str]", "_ntwritedefault": "Bool", "?_topic_type": "Bool", "_topic_type": "Ref:TopicType",
                            "?__orig_class__": "Bool", "__orig_class__": "Ref:TypeObj"}},
     "TunOwner": {"fields": {"_tunables": "Map[Ref:tunable,Ref:NTEntry]"}},
-    "Method": {"fields": {"?_magic_feedback": "Bool", "_magic_feedback": "Bool", "_magic_feedback_key": "Opt[Str]"}},
+    "Method": {"fields": {"?_magic_feedback": "Bool", "_magic_feedback": "Bool", "_magic_feedback_key": "Opt[Str]", "__name__": "Str"}},
+    "Signature": {"fields": {"parameters": "Seq[Str]"}},
     "NTTable": {"fields": {"path": "Str"}},
     "Publisher": {"fields": {"key": "Str", "ttype": "Ref:TopicType"}},
     "FbSetterW": {"fields": {"target": "Ref:PyObj", "kind": "Int"},
@@ -41,6 +43,9 @@ CLASSES = {
 import pyvc.engine as _eng
 TUNABLE_CLS = z3.Const("class.tunable", Ref)
 SPEC_FUNCS["TUNABLE_CLASS"] = lambda: vref(TUNABLE_CLS, "TypeObj")
+_nparams = z3.Function("number_of_parameters", Ref, z3.IntSort())
+SPEC_FUNCS["nparams"] = lambda f: __import__("pyvc.sorts", fromlist=["vint"]).vint(_nparams(f.z))
+SPEC_FUNCS["callable_obj"] = lambda f: vbool(z3.And(f.z != _eng.null, _eng.CALLABLE(f.z)))
 # ---- type-hint plumbing (tunable.__init__ / __set_name__ / _get_topic_type_for_value): python type objects are TypeObj references;
 # what typing / the topic tables make of them are uninterpreted functions, pinned down by the assumed contracts of the typing externals
 TYPE_OF = True
@@ -55,7 +60,19 @@ SPEC_FUNCS.update({
     "hint_of": lambda o, n: vref(_hint_of(o.z, n.z), "TypeObj"), "type_of": lambda v: vref(_eng.TYPE_OF(v.z), "TypeObj"),
     "CLASSVAR": lambda: vref(z3.Const("class.typing.ClassVar", Ref), "TypeObj"), "SEQ_CLASS": lambda: vref(z3.Const("class.collections.abc.Sequence", Ref), "TypeObj"),
 })
+def _cls(n):
+    return lambda: vref(z3.Const(f"class.{n}", Ref), "TypeObj")
+def _topic(n):
+    return lambda: vref(z3.Const(f"topic.{n}", Ref), "TopicType")
+for _n in ("bool", "int", "float", "str", "bytes", "list"):
+    SPEC_FUNCS["T_" + _n.upper()] = _cls("builtins." + _n)
+SPEC_FUNCS["T_TUPLE"] = _cls("tuple"); SPEC_FUNCS["T_ELLIPSIS"] = _cls("Ellipsis")
+for _n in ("Boolean", "Integer", "Double", "String", "Raw", "BooleanArray", "IntegerArray", "DoubleArray", "StringArray"):
+    SPEC_FUNCS["TOPIC_" + _n] = _topic(_n)
 MACROS.update({
+    "seq_origin(a)": "has_attr(a, '__origin__') and (a.__origin__ is T_LIST() or a.__origin__ is T_TUPLE() or a.__origin__ is SEQ_CLASS())",
+    "tuple_ok(a)": "implies(a.__origin__ is T_TUPLE(), (len(g_args) == 2 and g_args[1] is T_ELLIPSIS()) or forall(i, Int, implies(0 <= i and i < len(g_args), g_args[i] is g_args[0])))",
+    "seq_like(a)": "seq_origin(a) and len(g_args) > 0 and tuple_ok(a)",
     # the topic type a default value stands for: its own type's, else (a non-empty sequence) that of 'Sequence[type of the first element]'
     "topic_of_value(v)": "topic_of_hint(type_of(v)) if topic_of_hint(type_of(v)) is not None else (topic_of_hint(seq_hint_of(v)) if isinstance(v, SEQ_CLASS()) else None)",
     "strip2(h)": "first_arg(h) if origin_of(h) is TUNABLE_CLASS() else h",
@@ -102,7 +119,58 @@ CONTRACTS = {
     "typing.get_args": {"kind": "external", "params": {"tp": "Ref:TypeObj"}, "returns": "Seq[Ref:TypeObj]", "ensures": {"first parameter of the alias": "len(result) >= 1 and result[0] is first_arg(tp)"},
                         "note": "typing.get_args on a parameterised alias (tunable[T] / ClassVar[T]: exactly one parameter)"},
     "typing.get_origin": {"kind": "external", "params": {"tp": "Ref:TypeObj"}, "returns": "Ref:TypeObj", "ensures": {"origin": "result is origin_of(tp)"}, "note": "typing.get_origin"},
+    "tt.struct_topic": {"kind": "external", "params": {"of": "Ref:TypeObj"}, "returns": "Ref:TopicType", "returns_fresh": True, "ensures": {"StructTopic constructor for that struct type": "result.g_kind == 1 and result.g_of is of"},
+                        "note": "the expression `lambda topic: ntcore.StructTopic(topic, return_annotation)` (lambda bodies are not executed; the closure is abstracted by its captured type)"},
+    "tt.struct_array_topic": {"kind": "external", "params": {"of": "Ref:TypeObj"}, "returns": "Ref:TopicType", "returns_fresh": True, "ensures": {"StructArrayTopic constructor for that struct type": "result.g_kind == 2 and result.g_of is of"},
+                              "note": "the expression `lambda topic: ntcore.StructArrayTopic(topic, inner_type)`"},
+    "tt.get_args": {"kind": "external", "params": {"tp": "Ref:TypeObj"}, "returns": "Seq[Ref:TypeObj]", "pure_result": "g_args", "ensures": {"the alias parameters": "len(result) >= 0"}, "note": "typing.get_args(annotation) (one call site: g_args)"},
+    "tt.set_len": {"kind": "external", "params": {"xs": "Seq[Ref:TypeObj]"}, "returns": "Int",
+                   "ensures": {"number of distinct elements": "result >= 0 and (result == 0) == (len(xs) == 0) and (result == 1) == (len(xs) > 0 and forall(i, Int, implies(0 <= i and i < len(xs), xs[i] is xs[0])))"},
+                   "note": "the expression len(set(args)) (builtin semantics, assumed)"},
     # ---------------------------------------------------------------- repo functions
+    "inspect.signature": {"kind": "external", "params": {"f": "Ref:Method"}, "returns": "Ref:Signature", "ensures": {"signature object": "result is not None and len(result.parameters) == nparams(f)"},
+                          "note": "inspect.signature(f); only the number of parameters is used"},
+    "feedback": {
+        "params": {"f": "Ref:Method", "key": "Opt[Str]"}, "returns": "py", "raises": ["TypeError", "ValueError"],
+        "requires": {"decorating a function (the keyword-only form feedback(key=...) returns a functools.partial and is outside this contract)": "f is not None"},
+        "modifies": ["f._magic_feedback", "f.?_magic_feedback", "f._magic_feedback_key"],
+        "ensures": {"C11.D1 a decorated getter is marked for publication and remembers the explicit key (None: derive it from the name)":
+                    "has_attr(f, '_magic_feedback') and f._magic_feedback and f._magic_feedback_key == key and callable_obj(f) and nparams(f) == 1"},
+        "ensures_raise": {"C11.D2 rejected exactly when it is not callable (TypeError) or takes anything besides self (ValueError)": "(exc == 'TypeError' and not callable_obj(f)) or (exc == 'ValueError' and callable_obj(f) and nparams(f) != 1)",
+                          "nothing marked": "has_attr(f, '_magic_feedback') == old(has_attr(f, '_magic_feedback'))"},
+    },
+    "_get_topic_type#tables": {
+        "source": "_get_topic_type", "params": {"return_annotation": "Ref:TypeObj"}, "returns": "Ref:TopicType", "returns_fresh": False, "modifies": [],
+        "requires": {"an annotation": "return_annotation is not None"},
+        "assume_entry": {
+            "C09.T1 (structural, checked on the source): _topic_types maps exactly bool/int/float/str/bytes to the Boolean/Integer/Double/String/Raw topic classes":
+                "forall(k, Ref_TypeObj, has(g_topic_types, k) == (k is T_BOOL() or k is T_INT() or k is T_FLOAT() or k is T_STR() or k is T_BYTES())) and g_topic_types[T_BOOL()] is TOPIC_Boolean() and "
+                "g_topic_types[T_INT()] is TOPIC_Integer() and g_topic_types[T_FLOAT()] is TOPIC_Double() and g_topic_types[T_STR()] is TOPIC_String() and g_topic_types[T_BYTES()] is TOPIC_Raw()",
+            "C09.T1 (structural): _array_topic_types maps exactly bool/int/float/str to the array topic classes":
+                "forall(k, Ref_TypeObj, has(g_array_topic_types, k) == (k is T_BOOL() or k is T_INT() or k is T_FLOAT() or k is T_STR())) and g_array_topic_types[T_BOOL()] is TOPIC_BooleanArray() and "
+                "g_array_topic_types[T_INT()] is TOPIC_IntegerArray() and g_array_topic_types[T_FLOAT()] is TOPIC_DoubleArray() and g_array_topic_types[T_STR()] is TOPIC_StringArray()",
+            "the nine ntcore topic classes and the builtin types are distinct existing objects":
+                "TOPIC_Boolean() is not None and TOPIC_Integer() is not None and TOPIC_Double() is not None and TOPIC_String() is not None and TOPIC_Raw() is not None and TOPIC_BooleanArray() is not None and "
+                "TOPIC_IntegerArray() is not None and TOPIC_DoubleArray() is not None and TOPIC_StringArray() is not None and T_LIST() is not None and T_TUPLE() is not None and SEQ_CLASS() is not None and T_ELLIPSIS() is not None and "
+                "T_BOOL() is not None and T_INT() is not None and T_FLOAT() is not None and T_STR() is not None and T_BYTES() is not None and not (T_TUPLE() is T_LIST()) and not (T_TUPLE() is SEQ_CLASS()) and not (T_BOOL() is T_INT()) and not (T_BOOL() is T_FLOAT()) and not (T_BOOL() is T_STR()) and "
+                "not (T_BOOL() is T_BYTES()) and not (T_INT() is T_FLOAT()) and not (T_INT() is T_STR()) and not (T_INT() is T_BYTES()) and not (T_FLOAT() is T_STR()) and not (T_FLOAT() is T_BYTES()) and not (T_STR() is T_BYTES())",
+        },
+        "ensures": {
+            "C09.Y1 bool / int / float / str / bytes give the Boolean / Integer / Double / String / Raw topic (checked before anything else: str and bytes are sequences too)":
+                "implies(return_annotation is T_BOOL(), result is TOPIC_Boolean()) and implies(return_annotation is T_INT(), result is TOPIC_Integer()) and implies(return_annotation is T_FLOAT(), result is TOPIC_Double()) and "
+                "implies(return_annotation is T_STR(), result is TOPIC_String()) and implies(return_annotation is T_BYTES(), result is TOPIC_Raw())",
+            "C09.Y2 a WPILib struct type gives a StructTopic of that type":
+                "implies(not has(g_topic_types, return_annotation) and has_attr(return_annotation, 'WPIStruct'), result is not None and result.g_kind == 1 and result.g_of is return_annotation)",
+            "C09.Y3 list[T] / Sequence[T] / tuple[T, ...] / homogeneous tuple[T, T] give the array topic of a scalar T (bool/int/float/str) and a StructArrayTopic for a struct T":
+                "implies(not has(g_topic_types, return_annotation) and not has_attr(return_annotation, 'WPIStruct') and seq_like(return_annotation), "
+                "(implies(g_args[0] is T_BOOL(), result is TOPIC_BooleanArray()) and implies(g_args[0] is T_INT(), result is TOPIC_IntegerArray()) and implies(g_args[0] is T_FLOAT(), result is TOPIC_DoubleArray()) and "
+                "implies(g_args[0] is T_STR(), result is TOPIC_StringArray()) and "
+                "implies(not has(g_array_topic_types, g_args[0]) and has_attr(g_args[0], 'WPIStruct'), result is not None and result.g_kind == 2 and result.g_of is g_args[0]) and "
+                "implies(not has(g_array_topic_types, g_args[0]) and not has_attr(g_args[0], 'WPIStruct'), result is None)))",
+            "C09.Y4 anything else (no table entry, no struct, not a sequence alias, a heterogeneous tuple) has no topic type":
+                "implies(not has(g_topic_types, return_annotation) and not has_attr(return_annotation, 'WPIStruct') and not seq_like(return_annotation), result is None)",
+        },
+    },
     "_get_topic_type_for_value": {
         "params": {"value": "Ref:PyObj"}, "returns": "Ref:TopicType", "raises": "ValueError", "modifies": [],
         "requires": {"a value": "value is not None"},
@@ -187,8 +255,12 @@ CONTRACTS = {
 }
 NAMES = {"dir": ("contract", "tun.dir")}
 DYN_GETATTR = {("setup_tunables", "getattr"): "tun.getattr_cls"}
-CALL_OVERRIDES = {("tunable.__set_name__", "typing.get_type_hints"): "tt.owner_hints"}
-EXPR_OVERRIDES = {("_get_topic_type_for_value", "Sequence[type(value[0])]"): ("tt.seq_hint", ["value"])}
+CALL_OVERRIDES = {("tunable.__set_name__", "typing.get_type_hints"): "tt.owner_hints", ("_get_topic_type", "typing.get_args"): "tt.get_args"}
+EXPR_OVERRIDES = {("_get_topic_type_for_value", "Sequence[type(value[0])]"): ("tt.seq_hint", ["value"]),
+                  ("_get_topic_type", "lambda topic: ntcore.StructTopic(topic, return_annotation)"): ("tt.struct_topic", ["return_annotation"]),
+                  ("_get_topic_type", "lambda topic: ntcore.StructArrayTopic(topic, inner_type)"): ("tt.struct_array_topic", ["inner_type"]),
+                  ("_get_topic_type", "len(set(args))"): ("tt.set_len", ["args"])}
+NAMES.update({"_topic_types": ("global", "g_topic_types"), "_array_topic_types": ("global", "g_array_topic_types"), "tuple": ("dotted", "tuple"), "Ellipsis": ("dotted", "Ellipsis")})
 
 
 def _lemmas():
